@@ -32,6 +32,12 @@ CHECKS = {
         text="Seeded search over histories of simulate / time-course / protocol calls interleaved with parameter updates, variable overrides, steady-state runs, clear_results and get_result on ONE Simulator over closed-form families (incl. a non-autonomous one that distinguishes absolute from integrator-relative time). After every op: refusal iff requested end <= time reached, strictly increasing absolute axis, every requested later point exactly once, history never rewritten, states equal the closed-form solution from the previous segment's final state (override applied) under the parameters in force, recorded segment parameters right.",
         note="Closed-form oracle (matrix exponential from the family spec). Real Scipy runs judged at 2e-5*(1+|x|), ExactLinear stub runs at 1e-9. After an integration failure nothing is demanded until clear_results. Whether a reported steady state is steady is C15's question, not charged here.",
     ),
+    "C09": dict(
+        engine="scans", category="exploration", design_ref="DESIGN.md §4.3",
+        technique="deterministic simulation of schedules: each seeded scan input is executed sequentially (shared model) and under a simulated process pool (pickled payloads, seeded worker assignment / completion order, W in 1..16, optional worker death), lazily evaluated views read in a seeded order, content-keyed failing rows; every row compared with an independent simulation of a fresh model",
+        text="For scan.steady_state/time_course/protocol/protocol_time_course and mc.* (incl. mc.scan_steady_state) over models with a derived variable, a readout and a parameter defined by an initial assignment over the initial values: each row's variables and fluxes must equal a separate simulation of a fresh model with that row's values, sit at the row's position under the row's index label, be identical across all schedules (sequential, pool with any worker count and completion order, rows <,=,> workers) and read orders; a failing row (poisoned integrator) must read as NaN state on the grid of a successful row without disturbing its neighbours.",
+        note="Oracle = MxlPy's own Simulator on a fresh factory model nobody else touches. In-process SimPool shares module state with the parent (stub-fidelity self-test compares it with real pebble). Nothing is demanded of flux values of a NaN placeholder (state-independent rates legitimately evaluate).",
+    ),
     "C14": dict(
         engine="simtime", category="exploration", design_ref="DESIGN.md §4.2 (C14 additions)",
         technique="deterministic simulation: seeded protocol layouts (1-4 steps, unequal durations, repeated values, ragged steps) started on fresh and continued simulators (after simulate, override, steady state, clear), reference model with exact switching times; exact point-set oracle for the time-course form; per-row flux oracle",
@@ -55,6 +61,7 @@ CHECKS = {
 ENGINES = [
     {"name": "simkit", "path": "simkit/", "serves_properties": sorted(CHECKS), "kind_free_text": "seeded scheduler core: labelled PRNG streams, fork-based runner with watchdog, trace digests, ddmin shrinker, replay files, known-finding matching, evidence writer"},
     {"name": "crash", "path": "simkit/machines/crash.py", "serves_properties": ["C19"], "kind_free_text": "crash-history machine: fork+settrace kill points, CrashPath torn writes (simkit/crashfs.py), SimPool (simkit/simpool.py)"},
+    {"name": "scans", "path": "simkit/machines/scans.py", "serves_properties": ["C09"], "kind_free_text": "scan-schedule machine: SimPool (simkit/simpool.py), Faulty/ExactLinear integrators, independent-row oracle"},
     {"name": "simtime", "path": "simkit/machines/simtime.py", "serves_properties": ["C04", "C14"], "kind_free_text": "simulator-history machine: reference model of time keeping, closed-form families (simkit/models.py), integrator seam (simkit/integrators.py)"},
     {"name": "steady", "path": "simkit/machines/steady.py", "serves_properties": ["C15"], "kind_free_text": "steady-state machine: FaultyOde stepper seam, relaxation-time sweep, scan rows without steady state"},
     {"name": "edits", "path": "simkit/machines/edits.py", "serves_properties": ["C03"], "kind_free_text": "edit-history machine: online op generator, snapshot/rebuild refinement oracle"},
